@@ -61,16 +61,20 @@ class Tokenizer:
             self._tokens.append(tok)
         return self._tokens[self._index]
 
+    @staticmethod
+    def _physical_lines(text: str) -> list[str]:
+        """split at line feeds only, keeping them (str.splitlines would also split at form feeds etc.)"""
+        lines = [line + "\n" for line in text.split("\n")]
+        lines[-1] = lines[-1][:-1]  # no newline after the last piece; it is empty unless the input ends there
+        return [line for line in lines if line]
+
     def _record_lines(self, tok: TokenInfo) -> None:
         """remember the physical source lines a token lies on (error reports look them up by number)"""
         if self._path:
             return
         if tok.end[0] > tok.start[0]:  # multi-line string: its line attribute holds all of its physical lines
-            lines = [line + "\n" for line in tok.line.split("\n")]
-            lines[-1] = lines[-1][:-1]  # no newline after the last piece (it is empty unless input ends there)
-            for offset, line in enumerate(lines):
-                if line:
-                    self._lines.setdefault(tok.start[0] + offset, line)
+            for offset, line in enumerate(self._physical_lines(tok.line)):
+                self._lines.setdefault(tok.start[0] + offset, line)
         elif tok.start[0] not in self._lines:
             self._lines[tok.start[0]] = tok.line
 
@@ -172,7 +176,11 @@ class Tokenizer:
                     continue
 
             # update captured lines
-            if tok.start[0] not in lines:
+            if tok.end[0] > tok.start[0]:  # multi-line string: its line attribute holds all of its physical lines
+                for offset, line in enumerate(self._physical_lines(tok.line)):
+                    if tok.start[0] + offset not in lines:
+                        lines[tok.start[0] + offset] = line if is_indented or offset else line[tok.start[1] :]
+            elif tok.start[0] not in lines:
                 lines[tok.start[0]] = tok.line if is_indented else tok.line[tok.start[1] :]
 
         string = "".join(lines.values())
